@@ -76,8 +76,11 @@ Full statement / proved / missing
                          bindings; `C17x_pos_named` (FULL, a `def`): positional = named on parameterized types — FALSE of
                          model and code (known finding C17-tparam-explicit-undef, negation
                          `C17x_pos_named_explicit_default`); proved part `C17x_pos_named_partial`: … when no parameter's
-                         attribute is given its default explicitly.  Missing: the init-hash round trip on parameterized types
-                         (tested only), `IsInstance` of a parameterized type `T[p => v]` itself (implementation-only `@tparam`).
+                         attribute is given its default explicitly.  `C17x_inithash` (FULL, a `def`): the init-hash round trip
+                         on parameterized types, refuted by the same finding (`C17x_inithash_explicit_default`); proved part
+                         `C17x_inithash_partial` for every instance whose bindings are those of its own init-hash (`ExtOK`),
+                         which every positional construction is (`C17x_extOK_pos`).  Missing: `IsInstance` of a
+                         parameterized type `T[p => v]` itself (implementation-only `@tparam`).
 * the attribute-type alphabet is Integer, String, Boolean, Float, Any, Undef, Optional[T], NotUndef[T], Variant[A,B], Array[T]
   (`inst`, `asg`, `tyInit` tied to pcore by the ops `tinst` / `asg` on every pair of 85 type expressions).
 * missing altogether: functions, annotations (implementation-only streams `@objd`, `@iface`, `@ifacex`, `@fnover`),
@@ -1069,6 +1072,118 @@ example : NoParamDefault [lvP] [.int 1, .int 5] := by
 example : sameTypeX { obj := { typ := [lvP], values := [.int 1, .int 5] }, ext := [("p", .int 5)] }
     { obj := { typ := [lvP], values := [.int 1, .int 6] }, ext := [("p", .int 6)] } = false := by decide
 example : isParameterized [lvP] = true := by decide
+
+/-- the bindings of the instance's type are those its own init-hash yields -/
+def ExtOK (o : PObj) : Prop := o.ext = bindParams o.obj.typ (initHash o.obj) o.obj.values
+
+/-- every POSITIONAL construction is `ExtOK` (its values went through `makeValueHash`) -/
+theorem C17x_extOK_pos {t : OType} {vs : List Val} {o : PObj} (hw : WF t) (hn : newPosX t vs = .ok o) : ExtOK o := by
+  obtain ⟨ht, hv, -, -, hcase⟩ := newPosX_ok hw hn
+  obtain ⟨⟨t', va⟩, ext⟩ := o
+  simp only at ht hcase
+  subst ht
+  unfold ExtOK initHash
+  simp only [attrInfo_attrs]
+  rcases hcase with ⟨hva, hx, hnp⟩ | ⟨hva, hx⟩
+  · rw [hx]
+    rcases hnp with hnil | hnp
+    · subst hnil; subst hva
+      rw [mvh_nil]
+      exact (bindParams_nil _ _).symm
+    · exact (bindParams_plain hnp _ _).symm
+  · rw [hx, hva, mvh_trim, mvh_den]
+    intro i a hi hle
+    have := hv.req
+    simp only at this
+    exact hw.tailOpt i a hi (by omega)
+
+/-- FULL statement for parameterized types: the object rebuilt from its init-hash is Equal to the original, whichever
+    constructor made it.  FALSE of model and code — the known finding C17-tparam-explicit-undef again
+    (`C17x_inithash_explicit_default`: the init-hash leaves the default out, the rebuilt object has the plain type). -/
+def C17x_inithash : Prop :=
+  ∀ (t : OType) (es : List (String × Val)) (h : Val) (o : PObj), WF t → newNamedX t es h = .ok o → Valid o.obj →
+    ∃ o', newNamedX t (initHash o.obj) h = .ok o' ∧ equalsX o' o = .ok true
+
+/-- proved part: … for every instance whose bindings are those of its own init-hash (`ExtOK`: every positional construction —
+    `C17x_extOK_pos` —, and every named one that does not give a parameter's attribute its default).  The rebuilt object
+    exists, has the same bindings (the same parameterized type), denotes the same value at every position and is Equal in
+    both directions. -/
+theorem C17x_inithash_partial {o : PObj} (h : Val) (hw : WF o.obj.typ) (hv : Valid o.obj) (hx : ExtOK o) :
+    ∃ o', newNamedX o.obj.typ (initHash o.obj) h = .ok o' ∧ equalsX o' o = .ok true ∧ equalsX o o' = .ok true ∧
+      den (posAttrs o.obj.typ) o'.obj.values = den (posAttrs o.obj.typ) o.obj.values ∧ o'.ext = o.ext := by
+  obtain ⟨⟨t, vs⟩, ext⟩ := o
+  unfold ExtOK at hx
+  simp only at hw hv hx ⊢
+  have hlen : vs.length ≤ (posAttrs t).length := allInst_length hv.inst
+  have hm := namedMatches_initHash (o := { typ := t, values := vs }) hw hv
+  have hc := coerceOk_initHash (o := { typ := t, values := vs }) hw hv
+  have hpf := pfh_result hm
+  have hmap : (posAttrs t).map (fun a => ((initHash { typ := t, values := vs }).lookup a.name).getD a.implicitT) =
+      den (posAttrs t) vs := map_mvh_eq_den hw.nodup hw.god hlen
+  simp only at hpf
+  rw [hmap] at hpf
+  have hdl : (den (posAttrs t) vs).length = (posAttrs t).length := den_length hlen
+  have hden : den (posAttrs t) (trim (requiredCount t) (posAttrs t) (den (posAttrs t) vs)) = den (posAttrs t) vs := by
+    rw [den_trim hw.god, den_full (by omega)]
+  have hreq : requiredCount t ≤ vs.length := hv.req
+  have hk' : requiredCount t ≤ (trim (requiredCount t) (posAttrs t) (den (posAttrs t) vs)).length :=
+    trim_length_ge _ _ _ (by omega)
+  -- the bindings of the rebuilt object
+  have hext : bindParams t (initHash { typ := t, values := vs })
+      (trim (requiredCount t) (posAttrs t) (den (posAttrs t) vs)) = ext := by
+    rw [hx]
+    have hih : initHash { typ := t, values := vs } = makeValueHash (posAttrs t) vs := rfl
+    by_cases hvs : vs = []
+    · subst hvs
+      rw [hih, mvh_nil, bindParams_nil, bindParams_nil]
+    · by_cases htr : trim (requiredCount t) (posAttrs t) (den (posAttrs t) vs) = []
+      · have hes : makeValueHash (posAttrs t) vs = [] := by
+          have h1 := mvh_trim (requiredCount t) (posAttrs t) (den (posAttrs t) vs)
+          rw [htr, mvh_nil] at h1
+          rw [← mvh_den (attrs := posAttrs t) (vs := vs) (fun i a hi hle => hw.tailOpt i a hi (by omega))]
+          exact h1.symm
+        rw [hih, hes, bindParams_nil, bindParams_nil]
+      · apply bindParams_congr (fun _ _ => rfl)
+        cases hvs' : vs with
+        | nil => exact absurd hvs' hvs
+        | cons v vs' =>
+          cases htr' : trim (requiredCount t) (posAttrs t) (den (posAttrs t) (v :: vs')) with
+          | nil => rw [hvs'] at htr; exact absurd htr' htr
+          | cons x xs => rfl
+  refine ⟨{ obj := { typ := t, values := trim (requiredCount t) (posAttrs t) (den (posAttrs t) vs) }, ext := ext }, ?_, ?_, ?_, ?_, rfl⟩
+  · unfold newNamedX
+    simp only [hm, hc, hpf, if_true, hext]
+  · unfold equalsX sameTypeX
+    simp only [tyEq_refl, beq_self_eq_true, Bool.and_self]
+    rw [equalsWith_den hw.tailOpt hk' hreq, hden]
+    simp
+  · unfold equalsX sameTypeX
+    simp only [tyEq_refl, beq_self_eq_true, Bool.and_self]
+    rw [equalsWith_den hw.tailOpt hreq hk', hden]
+    simp
+  · simp only
+    rw [hden]
+
+/-- the known finding, second face: `new(T, {a => 1, p => undef})` is a `T[p => undef]`; its init-hash is `{a => 1}`; the
+    object rebuilt from it is a plain `T` and not Equal to the original -/
+theorem C17x_inithash_explicit_default : ¬ C17x_inithash := by
+  intro h
+  have h1 : newNamedX [lvP] [("a", .int 1), ("p", .undef)] (.hash "") =
+      .ok { obj := { typ := [lvP], values := [.int 1] }, ext := [("p", .undef)] } := by decide
+  obtain ⟨o', hn, he⟩ := h [lvP] _ (.hash "") _ wf_lvP h1 ⟨by decide, by decide⟩
+  have h2 : newNamedX [lvP] (initHash { typ := [lvP], values := [.int 1] }) (.hash "") =
+      .ok { obj := { typ := [lvP], values := [.int 1] }, ext := [] } := by decide
+  rw [h2] at hn
+  cases hn
+  have h3 : equalsX { obj := { typ := [lvP], values := [.int 1] }, ext := [] }
+      { obj := { typ := [lvP], values := [.int 1] }, ext := [("p", .undef)] } = .ok false := by decide
+  rw [h3] at he
+  cases he
+
+/-- hypotheses of `C17x_inithash_partial`: a positional construction that binds the parameter is `ExtOK` -/
+example : ExtOK { obj := { typ := [lvP], values := [.int 1, .int 5] }, ext := [("p", .int 5)] } :=
+  C17x_extOK_pos wf_lvP (by decide : newPosX [lvP] [.int 1, .int 5] =
+    .ok { obj := { typ := [lvP], values := [.int 1, .int 5] }, ext := [("p", .int 5)] })
 
 /-- each attribute reads back the value given or its default — also on a parameterized type -/
 theorem C17x_get {t : OType} {vs : List Val} {o : PObj} (hw : WF t) (hn : newPosX t vs = .ok o)
